@@ -129,22 +129,60 @@ class LinEnv:
             for k, v in b.items():
                 out[k] = out.get(k, 0) + s * v
             return {k: v for k, v in out.items() if v}
+        if isinstance(node, ast.UnaryOp) and isinstance(node.op, ast.USub):
+            return {k: -v for k, v in self.ev(node.operand).items()}
         raise AnalysisError("segment bound is not a linear form: %s" % unparse(node))
 
 
 SEGS = {"coincident": ({}, {"C": 1}), "edge": ({"C": 1}, {"C": 1, "E": 1}), "vertex": ({"C": 1, "E": 1}, {"C": 1, "E": 1, "V": 1})}
 
 
-def segment_of(lo, hi):
-    lo = lo or {}
-    hi = hi if hi is not None else {"C": 1, "E": 1, "V": 1}
+def _drop(form, zero):
+    return {k: v for k, v in (form or {}).items() if k not in zero and v}
+
+
+def _le(a, b):
+    """a <= b for linear forms in non-negative symbols (sufficient: b - a has no negative coefficient)"""
+    d = dict(b)
+    for k, v in a.items():
+        d[k] = d.get(k, 0) - v
+    return all(v >= 0 for v in d.values())
+
+
+def segments_of(lo, hi, zero=frozenset()):
+    """Names of the non-empty segments (coincident | edge | vertex) that the slice [lo:hi] covers, in the world where the
+    pair counts in `zero` are 0 and the others positive.  NumPy semantics of the bounds: a missing bound is the end, a
+    bound that is NEGATIVE in this world counts from the end (n + bound), and a bound that is -x with x = 0 in this world
+    is 0 - `a[-0:]` is the whole array, `a[:-0]` is empty.  A slice that cuts a segment in the middle is not modelled."""
+    n = _drop({"C": 1, "E": 1, "V": 1}, zero)
+
+    def norm(b, missing):
+        if b is None:
+            return dict(missing)
+        b = _drop(b, zero)
+        if b and all(v < 0 for v in b.values()):
+            out = dict(n)
+            for k, v in b.items():
+                out[k] = out.get(k, 0) + v
+            return {k: v for k, v in out.items() if v}
+        return b
+
+    lo, hi = norm(lo, {}), norm(hi, n)
+    out = []
     for name, (l, h) in SEGS.items():
-        if lo == l and hi == h:
-            return name
-    return None
+        l, h = _drop(l, zero), _drop(h, zero)
+        if l == h:
+            continue  # empty in this world
+        if _le(lo, l) and _le(h, hi):
+            out.append(name)
+        elif _le(hi, l) or _le(h, lo):
+            continue  # disjoint
+        else:
+            raise AnalysisError("segment store [%s:%s] cuts the %s segment" % (lo, hi, name))
+    return out
 
 
-def segment_stores(fn, unroll_zip=True):
+def segment_stores(fn, unroll_zip=True, zero=frozenset()):
     """[(array, segment, canonical value)] for every `arr[lo:hi] = value` in a method, evaluated in program order."""
     le = LinEnv()
     defs = roles.Defs(fn)
@@ -155,6 +193,11 @@ def segment_stores(fn, unroll_zip=True):
             if isinstance(st, ast.Expr) and isinstance(st.value, ast.Constant):
                 continue
             if isinstance(st, ast.Assign) and isinstance(st.targets[0], ast.Name):
+                v = st.value
+                if isinstance(v, ast.Call) and unparse(v.func).split(".")[-1] == "full" and len(v.args) >= 2:
+                    for seg in segments_of(None, None, zero):  # np.full(n, value): every segment starts with that value
+                        out.append((st.targets[0].id, seg, roles.canon(v.args[1], defs, keep=set(binding)), st.lineno))
+                    continue
                 try:
                     le.env[st.targets[0].id] = le.ev(st.value)
                 except AnalysisError:
@@ -175,11 +218,11 @@ def segment_stores(fn, unroll_zip=True):
                 t = st.targets[0]
                 arr = unparse(t.value)
                 arr = binding.get(arr, arr)
-                seg = segment_of(le.ev(t.slice.lower), le.ev(t.slice.upper))
                 val = roles.canon(st.value, defs, keep=set(binding))
                 for k, v in binding.items():
                     val = val.replace(k, str(v)) if not isinstance(v, str) or True else val
-                out.append((arr, seg, val, st.lineno))
+                for seg in segments_of(le.ev(t.slice.lower), le.ev(t.slice.upper), zero):
+                    out.append((arr, seg, val, st.lineno))
                 continue
             if isinstance(st, ast.For) and isinstance(st.iter, ast.Call) and unparse(st.iter.func) == "zip" and isinstance(st.target, ast.Tuple):
                 lists = st.iter.args
@@ -239,15 +282,23 @@ def check_segments(ctx):
         if len(actual) != len(roles_in_order):
             raise AnalysisError("%s.%s: does not return %d local arrays" % (CLS, meth, len(roles_in_order)))
         role_of = dict(zip(actual, roles_in_order))
-        got = {}
-        for arr, seg, val, ln in segment_stores(fn):
-            got[(role_of.get(arr, arr), seg)] = (val.replace(" ", ""), ln)
-        for key, exp in table.items():
-            exps = exp if isinstance(exp, list) else [exp]
-            g = got.get(key)
-            ok = g is not None and g[0] in [e.replace(" ", "") for e in exps]
-            r.check(ok, "%s[%s]" % key, SA, "%s.%s" % (CLS, meth), g[1] if g else fn.lineno, "%s segment %s = %s" % (key[0], key[1], g[0] if g else "missing"),
-                    "%s segment of %s is filled with `%s`, expected `%s`" % (key[1], key[0], g[0] if g else "nothing", exps[0]))
+        # worlds: all three kinds of pairs present; no vertex-adjacent pair (a tetrahedron); no edge-adjacent pair; neither
+        # (a single element).  NumPy's slice bounds mean different things there (`a[-0:]` is the whole array).
+        for zero, label in ((frozenset(), ""), (frozenset("V"), " [no vertex-adjacent pairs]"), (frozenset("E"), " [no edge-adjacent pairs]"), (frozenset("EV"), " [coincident pairs only]")):
+            got = {}
+            for arr, seg, val, ln in segment_stores(fn, zero=zero):
+                got[(role_of.get(arr, arr), seg)] = (val.replace(" ", ""), ln)
+            present = {"coincident"} | ({"edge"} if "E" not in zero else set()) | ({"vertex"} if "V" not in zero else set())
+            for key, exp in table.items():
+                if key[1] not in present:
+                    continue
+                exps = exp if isinstance(exp, list) else [exp]
+                g = got.get(key)
+                ok = g is not None and g[0] in [e.replace(" ", "") for e in exps]
+                if zero and ok:
+                    continue  # (the degenerate worlds are reported only when they deviate: instances are counted in the generic world)
+                r.check(ok, "%s[%s]%s" % (key[0], key[1], label), SA, "%s.%s" % (CLS, meth), g[1] if g else fn.lineno, "%s segment %s = %s%s" % (key[0], key[1], g[0] if g else "missing", label),
+                        "%s segment of %s is filled with `%s`, expected `%s`%s" % (key[1], key[0], g[0] if g else "nothing", exps[0], (" on a grid with" + label.strip(" []").replace("no ", " no ").replace("coincident pairs only", " coincident pairs only")) if label else ""))
     # point / weight stacking order
     r2 = ctx.rule("SING-STACK", "points and weights are stacked as [coincident, edge remaps, vertex remaps] / [coincident, edge, vertex]; get_arrays returns the 9 arrays in the order the assembler signature expects", 4)
     fp = m.fn(CLS + "._vectorize_points")
